@@ -119,7 +119,7 @@ theorem complete_replaces_sidefiles :
       (.ok, { initSt (some [0]) .old .old with dest := some [1], acc := [1], dirs := true, mdata := .absent, info := .new,
                                                uploadRec := false, partsGone := 1 }) := by decide
 
-/-- a00e4e8 (the C19 side of F-fs-5): a complete without a part list or with an empty one is refused (`MalformedXML`) and
+/-- 0fcb858 (the C19 side of F-fs-5): a complete without a part list or with an empty one is refused (`MalformedXML`) and
     nothing has changed — before, an empty object replaced the previous one — at the end of the call and at any position at
     which it is abandoned -/
 theorem complete_empty_list_changes_nothing :
